@@ -705,14 +705,66 @@ def write_evidence(spec, res, obligations, violations, t0):
 
 
 def do_replay(spec, path, res, workdir):
+    """Run the recorded case again, alone, against /repo as it is now: harness (or overlay test) on a
+    one-line corpus, Lean driver, the property's oracles and probes.  Exit 1 with a VIOLATION line if
+    it fails again, 0 if it does not (for an obligation-only replay file the obligations are printed)."""
     data = json.load(open(path))
     case = data.get("case") or (data.get("first_disagreement") or {}).get("case")
     if case is None:
-        print(json.dumps(data, indent=1)[:3000])
+        print(json.dumps({k: data.get(k) for k in ("property", "kind", "broken_obligations", "details")}, indent=1)[:3000])
+        print("no concrete case in this replay file: re-run ./check %s to re-check the obligations" % res.pid)
         return 0
-    fn = spec.get("replay")
-    if fn is None:
-        print("no replay runner for", res.pid)
-        return 2
     okgo, out = build_go(res.log)
-    return fn(spec, res, case, workdir)
+    if not okgo:
+        print("go build failed:\n" + out[-2000:])
+        return 2
+    with Lock("lake"):
+        okl, outl = lake_build(["driver"], res.log)
+    if not okl:
+        print("lake build driver failed:\n" + outl[-2000:])
+        return 2
+    op = case.get("op", "")
+    bare = {k: v for k, v in case.items() if k not in ("go", "probe")}
+    cf = os.path.join(workdir, "replay.case.jsonl")
+    with open(cf, "w") as f:
+        f.write(json.dumps(bare) + "\n")
+    lines = None
+    if op in ("match", "walk", "step", "crew", "expect"):
+        lines, _, okh = run_harness(op, ["-n", "0", "-corpus", cf] + (["-profile", "c03", "-reps", "32"] if op == "match" else []),
+                                    workdir, "replay", res.log, timeout=600)
+    elif op == "timers" and case.get("impl") == "sio":
+        lines, _, okh = run_harness("siotimers", ["-n", "0", "-corpus", cf], workdir, "replay", res.log, timeout=600)
+    elif op == "timers":
+        from registry import MCREW_TIMERS_OVERLAY as o
+        lines, okh = run_overlay_test(o["pkg"], o["files"], o["test"], "timersgen", [], workdir, "replay", res.log, cases_file=cf)
+    else:
+        print(json.dumps(bare, indent=1)[:4000])
+        print("this kind of case (op %r) has no single-case runner; it is regenerated by the seed: "
+              "VERIF_SEED=%s ./check %s" % (op, os.environ.get("VERIF_SEED", "1"), res.pid))
+        return 0
+    if not okh:
+        print("the harness did not complete on this case (crash or hang):\n" + "\n".join(res.log[-3:])[-3000:])
+        print("VIOLATION property=%s replay=%s" % (res.pid, path))
+        return 1
+    outp = run_driver(lines, res.log)
+    if outp is None:
+        print("driver failed")
+        return 2
+    analyze = spec["analyze"]
+    for inp, ver in read_pairs(lines, outp):
+        analyze(spec, res, inp, ver)
+        print(json.dumps({"implementation": inp.get("go"), "probe": inp.get("probe"),
+                          "verdict": {k: ver.get(k) for k in ("corr", "prop", "why", "det", "sound", "planted", "model") if k in ver}})[:6000])
+    known, new, newdiffs = classify_known(spec, res)
+    for kid, (k, n, _) in res.known_hits.items():
+        print("KNOWN-FINDING: property=%s %s [%s]" % (res.pid, k["what"], kid))
+    if new:
+        print("fails again: " + ", ".join(sorted(set(o for o, _, _ in new))))
+        print("VIOLATION property=%s replay=%s" % (res.pid, path))
+        return 1
+    if newdiffs:
+        print("model and implementation disagree on this case again")
+        print("VIOLATION property=%s replay=%s no-failing-input-found" % (res.pid, path))
+        return 1
+    print("not reproduced: the case passes on the tree as it is now")
+    return 0
